@@ -334,7 +334,28 @@ def strategy(tier):
             "inject": None,
         }
 
-    return st.one_of(cases(), cases(), cases(), stale_completion())
+    @st.composite
+    def evict_then_rejoin(draw):
+        """key a is cached at t0, evicted by key b (limit 1), called again at t1 (a new invocation, long running); a
+        caller arriving after t0+exp but before t1+exp must JOIN that invocation: nothing that belongs to the evicted
+        first entry (its expiry deadline, its completion) may touch the newer one"""
+        exp = draw(st.sampled_from([1, 1.5, 2]))
+        t1 = draw(st.sampled_from([0.5, 0.75]))
+        t_join = exp + draw(st.sampled_from([0.125, 0.25]))  # t0+exp < t_join < t1+exp
+        callers = [{"key": 0, "at": 0}, {"key": 1, "at": 0.25}, {"key": 0, "at": t1}, {"key": 0, "at": t_join}]
+        if draw(st.booleans()):
+            callers.append({"key": 0, "at": t_join + 0.125})
+        return {
+            "limit": 1,
+            "exp": exp,
+            "method": draw(st.booleans()),
+            "callers": callers,
+            "invs": [{"dur": draw(st.sampled_from([0, 0.125])), "out": "value"}, {"dur": draw(st.sampled_from([0, 0.125])), "out": "value"},
+                     {"dur": exp + 1, "out": draw(st.sampled_from(["value", "exc"]))}, {"dur": 0.5, "out": "value"}],
+            "inject": None,
+        }
+
+    return st.one_of(cases(), cases(), cases(), stale_completion(), evict_then_rejoin())
 
 
 def budget(tier):
